@@ -52,6 +52,8 @@ Rel(e, s, t) ==
            RemoveProperty(s[e.a], e.name, t[e.a]) /\ Only(s, t, {e.a})
       [] e.op = "add_constant" ->
            AddConstant(s[e.a], e.name, e.data, t[e.a]) /\ Only(s, t, {e.a})
+      [] e.op = "set_constant" ->
+           SetConstant(s[e.a], e.name, e.data, t[e.a]) /\ Only(s, t, {e.a})
       [] e.op = "resize_fill" ->
            ResizeFill(s[e.a], e.size, e.fill, t[e.a]) /\ Only(s, t, {e.a})
       [] e.op = "set_tag" ->
